@@ -43,6 +43,7 @@ func DoWithLabels(ctx context.Context, labels map[string]string, f func()) {
 		ctx,
 		pprof.Labels(l...),
 		func(_ context.Context) {
+			defer verifRecover(labels)
 			f()
 		})
 }
